@@ -109,3 +109,42 @@ Proof. vm_compute. repeat split; reflexivity. Qed.
 Example pinned_detector_ignored_clear :
   handle_s2d_conversion_first clear_msg = DNothing /\ handle_s2d clear_msg = DClear.
 Proof. split; reflexivity. Qed.
+
+(* ---- the table over time ---- *)
+Definition ex_r0 : reg := nth 0 (ingest ex_cfg ex_w ex_sel) (Build_reg [] [] 0 PUnk).
+Definition ex_hist_before : list (N * devent) :=
+  [ (1000, EMsg (announce ex_r0 ONew));
+    (300000000000, ESweep);
+    (300000000001, EPacket (announce ex_r0 ONew));           (* a packet of the flow: 5 min from now, shorter than what is left *)
+    (400000000000, EMsg (announce (nth 1 (ingest ex_cfg ex_w ex_sel) ex_r0) ONew));   (* somebody else's announcement *)
+    (600000000999, ESweep) ].
+Example ex_tracked_until_lifetime :
+  tracked (tag ex_sess) (drun [(KOther 0, 7)] ex_hist_before) = true /\
+  lookup (tag ex_sess) (drun [(KOther 0, 7)] ex_hist_before) = Some 600000001000.
+Proof. vm_compute. split; reflexivity. Qed.
+(* the hypotheses of C10_held_after_announcement hold for this history *)
+Example ex_held_hypotheses :
+  forall t e, In (t, e) (tl ex_hist_before) -> t < 1000 + station_lifetime (used_after ONew) /\ not_clear e.
+Proof.
+  intros t e [H|[H|[H|[H|[]]]]]; inversion H; subst; split; try (vm_compute; reflexivity);
+    intros m E; inversion E; subst; vm_compute; discriminate.
+Qed.
+(* the sweep at the expiry instant drops it (`v > now`), and it stays dropped *)
+Example ex_dropped_at_expiry :
+  tracked (tag ex_sess) (drun [(KOther 0, 7)] (ex_hist_before ++ [(600000001000, ESweep); (600000002000, EPacket (announce ex_r0 ONew))])) = false.
+Proof. vm_compute. reflexivity. Qed.
+(* used in time: Update keeps it for 6 h from then, a later New or a packet does not shorten that *)
+Example ex_update_extends :
+  lookup (tag ex_sess) (drun [] [ (1000, EMsg (announce ex_r0 ONew)); (5000, EMsg (announce ex_r0 OUpdate));
+                                   (6000, EMsg (announce ex_r0 ONew)); (7000, EPacket (announce ex_r0 ONew));
+                                   (21600000004999, ESweep) ]) = Some 21600000005000.
+Proof. vm_compute. reflexivity. Qed.
+(* a Clear in between is the one thing that ends forwarding early (it is excluded by not_clear) *)
+Example ex_clear_ends_it :
+  tracked (tag ex_sess) (drun [] [ (1000, EMsg (announce ex_r0 ONew)); (2000, EMsg clear_msg) ]) = false.
+Proof. vm_compute. reflexivity. Qed.
+(* the pubsub loop with errors in between *)
+Example ex_pubsub :
+  prun [] [ (1000, PRecvErr); (1000, PMsg (announce ex_r0 ONew)); (1500, PDecodeErr); (1600, PPayloadErr) ] =
+  [(tag ex_sess, 600000001000)].
+Proof. vm_compute. reflexivity. Qed.
